@@ -2,6 +2,8 @@ ID = "C03"
 LEVEL = "proof"
 CONTRACT_MODULES = ["contracts.sorting", "contracts.refcount", "contracts.tasks", "contracts.tasks_proto"]
 FUNCTIONS = ["RefCount.append", "RefCount.extend", "RefCount.remove", "Manager.register", "Manager.unregister", "Manager.set_value"]
+# refresh rebuilds the indices from the registered tasks (C17)
+BORROW = [('C17', ['Manager.refresh'])]
 RAC = "rac/c03.py"
 RAC_BUDGET = {"quick": 60, "thorough": 900}
 RAC_MIN = {"quick": 2912, "thorough": 2912}      # fewer run-time evaluations than this = the harness skipped its work: checker broken, not "held"
